@@ -7,6 +7,7 @@ import (
 
 	sdkmath "cosmossdk.io/math"
 	sdk "github.com/cosmos/cosmos-sdk/types"
+	authtypes "github.com/cosmos/cosmos-sdk/x/auth/types"
 	banktypes "github.com/cosmos/cosmos-sdk/x/bank/types"
 	distrtypes "github.com/cosmos/cosmos-sdk/x/distribution/types"
 	stakingtypes "github.com/cosmos/cosmos-sdk/x/staking/types"
@@ -164,7 +165,7 @@ func (v *view) sender(st simcore.Step) int {
 			}
 			return false
 		}
-	case "tf-mint", "tf-burn", "tf-admin":
+	case "tf-mint", "tf-burn", "tf-admin", "tf-force", "tf-meta":
 		has = func(i int) bool { return len(v.tfDenoms(i)) > 0 }
 	case "stake-undelegate", "stake-withdraw":
 		has = func(i int) bool {
@@ -444,7 +445,7 @@ func (v *view) build(st simcore.Step, sender int) []sdk.Msg {
 		return one(&incentivestypes.MsgAddToGauge{Owner: me, GaugeId: g.Id, Rewards: sdk.NewCoins(sdk.NewCoin("uosmo", osmomath.NewInt(10_000_000+x1%1_000_000_000)))})
 	case "tf-create":
 		return one(&tftypes.MsgCreateDenom{Sender: me, Subdenom: fmt.Sprintf("t%d", x0%6)})
-	case "tf-mint", "tf-burn", "tf-admin":
+	case "tf-mint", "tf-burn", "tf-admin", "tf-force", "tf-meta":
 		d, ok := pick(v.tfDenoms(sender), x0)
 		if !ok {
 			if x1%4 != 0 {
@@ -466,6 +467,20 @@ func (v *view) build(st simcore.Step, sender int) []sdk.Msg {
 				amt = osmomath.NewInt(1)
 			}
 			return one(&tftypes.MsgBurn{Sender: me, Amount: sdk.NewCoin(d, amt)})
+		case "tf-force":
+			// the admin moves tokens between two accounts; now and then one end is a module account (must be refused)
+			from := me // the admin usually holds what it minted
+			if x1%3 == 0 {
+				from = w.g.Accts[(sender+int(x1%int64(n)))%n].String()
+			}
+			to := w.g.Accts[(sender+1+int(x2%int64(n-1)))%n].String()
+			if x2%5 == 0 {
+				to = authtypes.NewModuleAddress([]string{"gamm", "lockup", "incentives", "distribution", "mint"}[x1%5]).String()
+			}
+			return one(&tftypes.MsgForceTransfer{Sender: me, Amount: sdk.NewCoin(d, osmomath.NewInt(1+x1%1_000)), TransferFromAddress: from, TransferToAddress: to})
+		case "tf-meta":
+			return one(&tftypes.MsgSetDenomMetadata{Sender: me, Metadata: banktypes.Metadata{Description: fmt.Sprintf("m%d", x1%7), Base: d, Display: d, Name: d, Symbol: fmt.Sprintf("S%d", x1%7),
+				DenomUnits: []*banktypes.DenomUnit{{Denom: d, Exponent: 0}}}})
 		default:
 			return one(&tftypes.MsgChangeAdmin{Sender: me, Denom: d, NewAdmin: w.g.Accts[(sender+1+int(x2%int64(n-1)))%n].String()})
 		}
